@@ -233,6 +233,46 @@ def OpInfo.eq (a b : OpInfo) : Bool :=
     && natListEq a.operands b.operands && V.eqList a.resultTypes b.resultTypes
     && V.eqList a.regions b.regions
 
+/-! ### a comparison that trusts the hash (kept for the counterexample theorem)
+
+`hash(self) == hash(other)` is a conjunct of `OperationInfo.__eq__`; it is a filter, not a
+substitute for comparing the attribute values: Python hashes collide systematically
+(`hash(-1) == hash(-2)`, `hash(v) == hash(v + 2^61 - 1)`), and the collision propagates through
+`IntAttr`, `IntegerAttr`, tuples and the `(key, value)` items summed by `OperationInfo.__hash__`. -/
+namespace HashOnly
+
+/-- the keys of a dictionary node (`dict.keys()`) -/
+def keys : V → List V
+  | .node .dict items => items.map fun
+      | .node .tup (k :: _) => k
+      | v => v
+  | _ => []
+
+/-- `OperationInfo.__eq__` with `attributes == …` / `properties == …` replaced by a comparison of the
+key sets, relying on the hash for the values -/
+def opInfoEq (a b : OpInfo) : Bool :=
+  (a.hash == b.hash) && natListEq a.name b.name && V.eqList (keys a.attrs) (keys b.attrs)
+    && V.eqList (keys a.props) (keys b.props)
+    && natListEq a.operands b.operands && V.eqList a.resultTypes b.resultTypes
+    && V.eqList a.regions b.regions
+
+end HashOnly
+
+/-! ### `BFloat16Type._encode` (the one hand-written encoder among the IEEE types) -/
+
+/-- `BFloat16Type._encode` as a function of the binary32 bit pattern `f` of the value (what
+`struct.pack("<f", value)` yields): a NaN keeps its upper half with the quiet bit forced on,
+everything else is rounded to nearest-even on the upper 16 bits (`x | 0x40` is written
+arithmetically). -/
+def bf16Encode (f : Nat) : Nat :=
+  if f % 2^31 > 0x7F800000 then
+    let h := f / 2^16 % 2^16
+    if h / 64 % 2 = 1 then h else h + 64
+  else (f + 0x7FFF + f / 2^16 % 2) / 2^16 % 2^16
+
+/-- `BFloat16Type._decode`: the pattern becomes the upper half of a binary32 -/
+def bf16Decode (p : Nat) : Nat := p * 2^16
+
 /-! ### dense resource handles (known finding: not context independent) -/
 
 def suffixed (key : List Nat) (c : Nat) : List Nat :=
@@ -361,6 +401,8 @@ def kidsOf : V → List V
 `op <name u…> <attrs> <props> <types> <operands|-> <regions>` (indices of defined values; `types`
 and `regions` are tuples) → `ok <index>`; `cmpop i j` → `eq … heq …`;
 `legacyfloat <hex> <hex>` → `eq <0|1>` (the unfixed `FloatData.__eq__`);
+`bf16enc <hex binary32 bits>` → `bits <decimal bf16 pattern>` (`BFloat16Type._encode`);
+`cmpophash i j` → `eq <0|1>` (the comparison that trusts the hash, counterexample only);
 `declare <key>` → `key <key actually used>` (`declare_resource` on the state's storage). -/
 def lineStep (s : State) (line : String) : State × String :=
   match words line with
@@ -396,6 +438,17 @@ def lineStep (s : State) (line : String) : State × String :=
   | ["declare", k] =>
     let r := declareResource s.storage (k.toList.map Char.toNat)
     ({ s with storage := r.2 }, s!"key {String.ofList (r.1.map Char.ofNat)}")
+  | ["bf16enc", f] =>
+    (match hexNat f with
+     | some f => (s, s!"bits {bf16Encode (f % 2^32)}")
+     | none => (s, "bad-op"))
+  | ["cmpophash", i, j] =>
+    (match i.toNat?, j.toNat? with
+     | some i, some j =>
+       (match s.ops[i]?, s.ops[j]? with
+        | some a, some b => (s, s!"eq {bit (HashOnly.opInfoEq a b)}")
+        | _, _ => (s, "bad-op"))
+     | _, _ => (s, "bad-op"))
   | ["legacyfloat", a, b] =>
     (match hexNat a, hexNat b with
      | some a, some b => (s, s!"eq {bit (Legacy.floatEq a b)}")
